@@ -23,6 +23,26 @@ impl MultiLineMatch<'_> {
             .as_ref()
             .map_or(self.comment.end.as_str(), |c| c.as_ref())
     }
+
+    /// The part of `line` that follows the matched start marker.
+    ///
+    /// The end marker is only meaningful there: text before the start marker
+    /// (`t[a[1]] --[[ ...`) or characters shared with it (`/*/`) never close the comment.
+    ///
+    /// Quote-style blocks whose start and end are the same marker (`"""`) keep the
+    /// whole line; how those are counted is pinned by the Python docstring tests.
+    #[must_use]
+    pub fn after_start<'l>(&self, line: &'l str) -> &'l str {
+        if self.comment.start == self.end_marker() {
+            return line;
+        }
+        let start_len = match &self.dynamic_end {
+            // `--[==[` is two bytes longer than its closer `]==]`
+            Some(end) if self.comment.pattern_kind == PatternKind::LuaLongBracket => end.len() + 2,
+            _ => self.comment.start.len(),
+        };
+        line.get(self.position + start_len..).unwrap_or("")
+    }
 }
 
 pub struct CommentDetector<'a> {
